@@ -17,6 +17,14 @@
 (*   earlyclose NEGATIVE CONTROL: pool whose results channel is closed without *)
 (*             waiting for the workers (send on closed channel, must fail)     *)
 (*   prodcons  n producers, k consumers (range and v, ok forms), close         *)
+(*   rebind    the argument variables of a go statement (pointer, map, slice,  *)
+(*             function value, int) are REASSIGNED by the spawner right after  *)
+(*             the statement; k = form of the callee (0 declared function,     *)
+(*             1 function literal called in place, 2 closure variable,         *)
+(*             3 method value).  pipeline does the same with channels (`in =   *)
+(*             out`), its n = the same form.  Go: the function value and the   *)
+(*             arguments are evaluated by the go statement; the machine copies *)
+(*             them into the new process's locals (NewProc).                   *)
 (*   host      n host goroutines call the same script function F               *)
 (*   interps   n interpreters run the same program in parallel                 *)
 (*                                                                             *)
@@ -45,7 +53,7 @@ Tag(id, j) == Add(Mul(V(id), C(10)), V(j))       \* id*10+j: a value that names 
 MainParams == <<"n", "k", "b", "m">>
 
 FnNames == {"main_pipeline", "main_pool", "main_drain", "main_privsel", "main_counter",
-            "main_nolock", "main_earlyclose", "eclose", "main_prodcons", "main_host", "main_interps", "stage", "gen", "worker",
+            "main_nolock", "main_rebind", "rworker", "main_earlyclose", "eclose", "main_prodcons", "main_host", "main_interps", "stage", "gen", "worker",
             "closer", "sworker", "feeder", "cworker", "nworker", "iworker", "imain", "producer",
             "pcloser", "consumer", "hostcall", "hgen"}
 
@@ -58,13 +66,15 @@ TParamsL == [f \in FnNames |->
     [] f \in {"feeder"}   -> <<"id", "in", "quit", "stop", "m">>
     [] f \in {"cworker", "nworker", "iworker", "imain", "hostcall"} -> <<"id", "m">>
     [] f \in {"producer"} -> <<"id", "ch", "m">>
+    [] f \in {"rworker"}  -> <<"id", "p", "mp", "sl", "fn", "x">>
     [] f \in {"pcloser"}  -> <<"ch">>
     [] f \in {"consumer"} -> <<"id", "ch", "res">>
     [] f \in {"hgen"}     -> <<"out", "id", "m">>
     [] OTHER -> MainParams]
 
 TVars == {"n", "k", "b", "m", "i", "j", "v", "r", "s", "t", "ok", "acc", "sum", "tot", "id",
-          "in", "out", "first", "prev", "next", "jobs", "res", "quit", "stop", "ch", "c"}
+          "in", "out", "first", "prev", "next", "jobs", "res", "quit", "stop", "ch", "c",
+          "p", "mp", "sl", "fn", "x", "a", "bb", "cc"}
 
 \* the argument of `go` is copied when the statement executes: r changes afterwards
 CounterMain(w) == <<
@@ -187,6 +197,35 @@ TProgL == [f \in FnNames |->
       (* 5*) <<"jmp", 2>>,
       (* 6*) <<"send", "quit", C(1)>>,
       (* 7*) <<"ret">> >> )
+  [] f = "main_rebind" -> (<<
+      (* 1*) <<"wgadd", "W", V("n")>>,
+      (* 2*) <<"set", "i", C(1)>>,
+      (* 3*) <<"jz", Le(V("i"), V("n")), 17>>,
+      (* 4*) <<"new", "p", Mul(V("i"), C(100))>>,
+      (* 5*) <<"new", "mp", Add(Mul(V("i"), C(100)), C(1))>>,
+      (* 6*) <<"new", "sl", Add(Mul(V("i"), C(100)), C(2))>>,
+      (* 7*) <<"set", "fn", C(1)>>,
+      (* 8*) <<"set", "x", Tag("i", "m")>>,
+      (* 9*) <<"go", "rworker", <<V("i"), V("p"), V("mp"), V("sl"), V("fn"), V("x")>>>>,
+      \* the spawner moves on: every argument variable now denotes something else
+      (*10*) <<"new", "p", C(7)>>,
+      (*11*) <<"new", "mp", C(7)>>,
+      (*12*) <<"new", "sl", C(7)>>,
+      (*13*) <<"set", "fn", C(2)>>,
+      (*14*) <<"set", "x", C(0)>>,
+      (*15*) Inc("i"),
+      (*16*) <<"jmp", 3>>,
+      (*17*) <<"wgwait", "W">>,
+      (*18*) <<"ret">> >> )
+  [] f = "rworker" -> (<<
+      (* 1*) <<"pload", "a", "p">>,
+      (* 2*) <<"pstore", "p", Add(V("a"), V("id"))>>,
+      (* 3*) <<"pload", "a", "p">>,
+      (* 4*) <<"pload", "bb", "mp">>,
+      (* 5*) <<"pload", "cc", "sl">>,
+      (* 6*) <<"print", <<V("id"), V("a"), V("bb"), V("cc"), <<"app", V("fn"), V("x")>>>>>>,
+      (* 7*) <<"wgdone", "W">>,
+      (* 8*) <<"ret">> >> )
   [] f = "main_counter" -> (CounterMain("cworker") )
   [] f = "main_nolock" -> (CounterMain("nworker") )
   [] f = "cworker" -> (<<
@@ -334,7 +373,8 @@ Mk(f, n, k, b, m) == [t |-> f, fn |-> "main_" \o f, args |-> <<n, k, b, m>>,
                       n |-> n, k |-> k, b |-> b, m |-> m]
 Many == NSet \ {1}
 InstancesOf(f) ==
-    CASE f = "pipeline" -> {Mk(f, 0, k, b, 3) : k \in NSet, b \in BSet}
+    CASE f = "pipeline" -> {Mk(f, n, k, b, 3) : n \in 0..3, k \in NSet, b \in BSet}      \* n: form of the stage callee
+      [] f = "rebind"   -> {Mk(f, n, k, 0, 2) : n \in NSet, k \in 0..3}
       [] f \in {"pool", "drain"} -> {Mk(f, n, 0, b, 3) : n \in NSet, b \in BSet}
       \* privsel: b = capacity of quit; k = rendering form of the send case (0: the value is
       \* computed before the select, 1: `case in <- id*10+j`), one pinned instance of form 1
@@ -365,13 +405,14 @@ SqSum(m) == Sum([j \in 1..m |-> Sq(j)], m)
 TagSum(id, m) == Sum([j \in 1..m |-> id * 10 + j], m)
 TagSums(n, m) == Sum([i \in 1..n |-> TagSum(i, m)], n)
 
-MultisetOf(i) == i.t \in {"pool", "drain", "privsel", "host", "interps"}
+MultisetOf(i) == i.t \in {"pool", "drain", "privsel", "host", "interps", "rebind"}
 
 ExpectOf(i) ==
     LET n == i.n  k == i.k  m == i.m IN
     CASE i.t = "pipeline" -> [j \in 1..m |-> <<Pipe(j, 1, k)>>]
       [] i.t \in {"pool", "drain"} -> [j \in 1..m |-> <<1, Sq(j)>>] \o << <<2, SqSum(m)>> >>
       [] i.t = "privsel"  -> [x \in 1..n |-> <<x, TagSum(x, m)>>]
+      [] i.t = "rebind"   -> [x \in 1..n |-> <<x, x * 100 + x, x * 100 + 1, x * 100 + 2, (x * 10 + m) * 2 + 1>>]
       [] i.t \in {"counter", "nolock"} -> << <<n * m>> >>
       [] i.t = "earlyclose" -> <<>>
       [] i.t = "prodcons" -> << <<TagSums(n, m)>> >>
